@@ -206,8 +206,6 @@ Proof.
 Qed.
 
 (* ---- the code as found: witnesses ---- *)
-Definition d2_only : Defects := mkDefects true false false false false.
-Definition d4_only : Defects := mkDefects false false true false false.
 
 Definition plan_ok : rplan := mkPlan WOk WOk ROk WOk.
 Definition adv_ok : adv := mkAdv false false false (mkDev 1 0) ROk ROk 0 plan_ok.
